@@ -132,6 +132,18 @@ Proof.
   intros H. apply N.ltb_lt in H. unfold offset_bytes, offset_bytes_ceil. rewrite w64_small by exact H. repeat split; lia.
 Qed.
 
+Theorem offset_misc_spec s bits n :
+  sp_off (set_offset s bits) = bits /\ sp_data (set_offset s bits) = sp_data s /\ sp_size (set_offset s bits) = sp_size s /\
+  (0 < n -> offset_misalignment s n = Some (sp_off s mod n) /\ offset_aligns_to s n = Some (sp_off s mod n =? 0) /\
+            (offset_aligns_to s n = Some true <-> exists q, sp_off s = q * n)).
+Proof.
+  split; [reflexivity|]. split; [reflexivity|]. split; [reflexivity|]. intros Hn.
+  unfold offset_aligns_to, offset_misalignment. destruct (N.eqb_spec n 0); [lia|].
+  split; [reflexivity|]. split; [reflexivity|]. split.
+  - intros H. injection H as H. apply N.eqb_eq in H. exists (sp_off s / n). pose proof (N.div_mod (sp_off s) n ltac:(lia)). lia.
+  - intros (q & Hq). f_equal. apply N.eqb_eq. rewrite Hq. apply N.mod_mul. lia.
+Qed.
+
 (* align_offset_to<n>(): (offset + (n-1)) & ~(n-1) is the next multiple of n, for n = 2^k <= 64 *)
 Lemma clear_low_bits x k : k <= 64 -> x < two64 ->
   N.land x (N.lxor (2 ^ k - 1) (N.ones 64)) = x / 2 ^ k * 2 ^ k.
@@ -179,6 +191,17 @@ Proof.
   - rewrite E, N.sub_0_r, N.mod_same, N.add_0_r by lia. split; [exact E|lia].
   - rewrite (N.mod_small (n - d_off d mod n) n) by lia. split; [|lia].
     replace (d_off d + (n - d_off d mod n)) with ((d_off d / n + 1) * n) by nia. apply N.mod_mul. lia.
+Qed.
+
+(* Serializer.buffer: the first ceil(offset/8) bytes; under the invariant the bits after the cursor in it are zero ("zero-bit-padded") *)
+Theorem ser_buffer_spec s :
+  (s_off s + 7) / 8 <= blen (s_buf s) ->
+  blen (ser_buffer s) = (s_off s + 7) / 8 /\
+  (forall p, bit (ser_buffer s) p = (p <? 8 * ((s_off s + 7) / 8)) && bit (s_buf s) p) /\
+  (Inv s -> forall p, s_off s <= p -> bit (ser_buffer s) p = false).
+Proof.
+  intros Hcap. unfold ser_buffer. split; [unfold blen in *; rewrite firstn_length; lia|]. split; [intros p; apply bit_firstn|].
+  intros HI p Hp. rewrite bit_firstn, (HI p Hp). apply andb_false_r.
 Qed.
 
 (* ZeroExtendingBuffer *)
